@@ -46,7 +46,8 @@ for hs, tiers, to in [(8, ("quick", "thorough"), 240), (12, ("quick", "thorough"
         bounds_q="all strings of header size %d" % hs))
 # payload-side pieces decided elsewhere that belong to "decode as specified"
 OBLIGATIONS += reuse("C15", r"delta_reinit|delta_roundtrip|delta_reference")    # delta decoder state does not leak between Blocks
-OBLIGATIONS += reuse("C04", r"dict_repeat_safety|dict_wrap_step|dict_put_get_step|lzma_decoder_reset")   # LZ dictionary primitives, state reset
+OBLIGATIONS += reuse("C04", r"dict_repeat_safety|dict_wrap_step|dict_put_get_step|lzma_decoder_reset|microlzma_wrapper")   # LZ dictionary primitives, state reset, MicroLZMA wrapper
+OBLIGATIONS += reuse("C05", r"block_body_rules|index_hash_exact")   # Block body and Index accepted exactly when valid
 # LZMA2 chunk layer under the real LZ decoder driver, vs the chunk grammar (also serves C04/C05/C06)
 L2_UNITS = [S + "common/common.c", S + "lzma/lzma_decoder.c"]
 OBLIGATIONS.append(Obligation(
